@@ -375,3 +375,12 @@ def gen_physics(rnd, **p):
             out["device_history"][0] = {"max_edge_length": 0, "smooth": 0}
             out["device"]["mesh"] = {"max_edge_length": rnd.choice([1.0, 1.5]), "smooth": rnd.choice([0, 1])}
     return out
+
+
+def maybe_solve_twice(rnd, scn, p=0.08):
+    """Solver life cycle: with probability p the same TDGLSolver object is solved twice (the recorded
+    history is kept per solve; online invariants judge both)."""
+    if rnd.random() < p and not scn.get("reload_phase") and not scn.get("seed_phase") and all(f["kind"] == "refuse" for f in scn.get("faults", [])):
+        scn["solve_twice"] = True
+        scn["meta"]["lifecycle"] = "solve_twice"
+    return scn
